@@ -152,7 +152,17 @@ def run(ctx):
                         okw = ups == {"weight"} and not other and not controlling_atoms(cf, s.bb)
             ctx.require(okw and "edges" in efs, "R-C15-4", "edges|set_all_edge_weights", "every edge's weight is assigned exactly the `weight` parameter, unconditionally", "the new weight is not simply the parameter", loc_str(c.span))
         elif name == "to_single_edges":
-            ce = prog.one("convert::collapse_edges")
+            # the body that builds the collapsed edge: a helper (collapse_edges), a closure, or to_single_edges itself
+            ce = None
+            for rp in sorted(prog.reachable_bodies([b.path])):
+                rb = prog.bodies[rp]
+                if "graph::convert" not in rb.short:
+                    continue
+                if any(t.callee and t.callee.short.endswith("Edge::with_weight") for t in rb.calls()):
+                    ce = rb
+            if ce is None:
+                ctx.anchor_lost("R-C15-4", "the Edge::with_weight call that builds a collapsed edge in to_single_edges")
+                continue
             cf = flows.of(ce)
             ww = [t for t in ce.calls() if t.callee and t.callee.short.endswith("Edge::with_weight")]
             okc = False
@@ -163,7 +173,7 @@ def run(ctx):
                 k1 = fmt_desc(panic.shape(panic.norm(cf.describe(ww[0].args[1], depth=8))))
                 okc = "sum" in wc and k0.endswith(".0") and k1.endswith(".1")
             ok4 = okc and any(x.endswith("convert::collapse_edges") for x in ecal) or (okc and "edges" in efs)
-            uses_ce = any(c2.is_const() and c2.c and c2.c.get("fn", "").endswith("collapse_edges") for s in b.stmts() if s.rv is not None for c2 in s.rv.ops) or any(a.is_const() and a.c and a.c.get("fn", "").endswith("collapse_edges") for t in b.calls() for a in t.args)
+            uses_ce = True  # `ce` was found among the bodies reachable from to_single_edges
             ctx.require(okc and uses_ce and "edges" in efs, "R-C15-4", "edges|to_single_edges", "one edge per key of the pair store, named by the key, weight = sum over that key's list", "to_single_edges does not build (key.0, key.1, sum of weights) per pair", loc_str(c.span))
         elif name == "get_subgraph":
             # the edge filter closure: true only if both endpoints are members
